@@ -84,6 +84,10 @@ def run_mutant(m, scratch):
         # behaviour-preserving rewrite: the check must stay green
         if rc == 0:
             return m, "silent-ok", ""
+        if rc == 2 and not any(l.startswith("VIOLATION") for l in viol):
+            # no alarm was raised, but the rewrite renamed or removed something the rules are anchored on: the check
+            # refuses to decide (exit 2). Not a false alarm, still a robustness defect worth fixing.
+            return m, "ANCHOR-LOST", "\n".join(viol[:6]) or out[-400:]
         return m, "FALSE-ALARM", "\n".join(viol[:6]) or out[-400:]
     if rc == 2:
         return m, "broken", out[-800:]
@@ -124,9 +128,9 @@ def main(tier="quick", only=None, jobs=4, summary=None, tag="selftest"):
     bad = 0
     for m, st, info in sorted(results, key=lambda x: x[0]["id"]):
         print("%-12s %-5s %-28s %s" % (st, m["prop"] if isinstance(m["prop"], str) else "+".join(m["prop"]), m["id"], m.get("rule", "")))
-        if st in ("MISSED", "broken", "caught-other", "FALSE-ALARM"):
+        if st in ("MISSED", "broken", "caught-other", "FALSE-ALARM", "ANCHOR-LOST"):
             print("     " + info.replace("\n", "\n     "))
-        if st in ("MISSED", "broken", "FALSE-ALARM"):
+        if st in ("MISSED", "broken", "FALSE-ALARM", "ANCHOR-LOST"):
             bad += 1
     print("selftest: %d variants, %d behaviour-preserving stayed silent, %d caught, %d caught by another rule, %d skipped, "
           "%d missed/broken/false-alarm, %.0fs" % (
@@ -137,7 +141,7 @@ def main(tier="quick", only=None, jobs=4, summary=None, tag="selftest"):
         summary.update({"variants": len(results), "caught": sum(1 for r in results if r[1] in ("caught", "caught-other")),
                         "silent_ok": sum(1 for r in results if r[1] == "silent-ok"),
                         "skipped": [r[0]["id"] for r in results if r[1] == "skipped"],
-                        "failed": [(r[0]["id"], r[1]) for r in results if r[1] in ("MISSED", "broken", "FALSE-ALARM")]})
+                        "failed": [(r[0]["id"], r[1]) for r in results if r[1] in ("MISSED", "broken", "FALSE-ALARM", "ANCHOR-LOST")]})
     return 1 if bad else 0
 
 
